@@ -91,7 +91,7 @@ func (e *Engine) textMethod(t types.Type) string {
 }
 
 // sprintf returns the formatted string as a byte-string value.
-func (e *Engine) sprintf(format string, args []value) *bytesV {
+func (e *Engine) sprintf(format string, args []value, opaque bool) *bytesV {
 	out := constStrV("")
 	lit := func(s string) {
 		if s != "" {
@@ -129,6 +129,11 @@ func (e *Engine) sprintf(format string, args []value) *bytesV {
 		}
 		g, sym := e.fmtArg(args[ai])
 		ai++
+		if sym != nil && opaque {
+			// error and log texts are opaque: a symbolic argument is not rendered
+			lit("<symbolic>")
+			continue
+		}
 		if sym != nil {
 			if sym.arr == nil {
 				e.end("unsupported", "M-fmt: symbolic scalar under "+verb)
@@ -182,14 +187,14 @@ func (e *Engine) setupFmt() {
 		if !ok {
 			e.end("unsupported", "M-fmt: symbolic format string")
 		}
-		return e.sprintf(f, e.varargs(a[1]))
+		return e.sprintf(f, e.varargs(a[1]), false)
 	}
 	x["fmt.Errorf"] = func(e *Engine, fr *frame, a []value) value {
 		f, ok := a[0].(*bytesV).goString()
 		if !ok {
 			e.end("unsupported", "M-fmt: symbolic format string")
 		}
-		return e.callFn(e.fn("errors", "New"), []value{e.sprintf(f, e.varargs(a[1]))})
+		return e.callFn(e.fn("errors", "New"), []value{e.sprintf(f, e.varargs(a[1]), true)})
 	}
 	x["fmt.Sprint"] = func(e *Engine, fr *frame, a []value) value { return e.sprint(e.varargs(a[0]), false) }
 	x["fmt.Sprintln"] = func(e *Engine, fr *frame, a []value) value { return e.sprint(e.varargs(a[0]), true) }
@@ -202,7 +207,7 @@ func (e *Engine) setupFmt() {
 		if !ok {
 			e.end("unsupported", "M-fmt: symbolic format string")
 		}
-		return fwrite(e, a[0], e.sprintf(f, e.varargs(a[2])))
+		return fwrite(e, a[0], e.sprintf(f, e.varargs(a[2]), false))
 	}
 	x["fmt.Fprintln"] = func(e *Engine, fr *frame, a []value) value { return fwrite(e, a[0], e.sprint(e.varargs(a[1]), true)) }
 	x["fmt.Fprint"] = func(e *Engine, fr *frame, a []value) value { return fwrite(e, a[0], e.sprint(e.varargs(a[1]), false)) }
